@@ -349,7 +349,12 @@ def addcb_rule(ctx, rep):
         tests = [e for e in p.evs("branch") if isinstance(e.d[0], tuple) and e.d[0][0] == "call" and e.d[0][1] == ("attr", ("param", "self"), "done")]
         apps = [e for e in p.calls() if q.call_name(e) == "append" and q.recv(e) == P.CBS]
         direct = [e for e in p.calls() if e.d.get("user") and e.d["func"] == ("param", adc.params[1])]
-        rep.require(len(tests) == 1, "add_done_callback: expected one done() test per path")
+        if len(tests) != 1:
+            # "already done?" is decided by something other than done(): any stand-in (a flag, the list being None) is
+            # written at a different moment than the state transition itself, and a callback registered in between
+            # is neither called nor kept
+            rep.ob("R-ADDCB", "add_done_callback decides by the future's own done()", False, "a path through add_done_callback makes %d tests of self.done() (path: %s): whether the callback is queued or called at once must be decided by done() itself, under the future's lock -- the transition is made under that lock, anything else that stands in for it is updated later" % (len(tests), q.path_sig(p)[-140:]), where_of(adc), trace_of(p))
+            continue
         t = tests[0]
         is_done = t.d[1]
         kinds.add(is_done)
@@ -362,7 +367,7 @@ def addcb_rule(ctx, rep):
             same_hold = len(apps) == 1 and q.has_lock(apps[0], L) and roles.held_throughout(p, L, t, apps[0])
             ok = same_hold and not direct and apps[0].d["args"] == (("param", adc.params[1]),)
             rep.ob("R-ADDCB", key + ": append in the same critical section", ok, "on a pending future the callback must be appended under the same hold of the lock as the done() test and not called (appended: %d, called: %d)" % (len(apps), len(direct)), where_of(adc), trace_of(p))
-    rep.require(kinds == {True, False}, "add_done_callback: expected a done and a pending path")
+    rep.ob("R-ADDCB", "add_done_callback has a done and a pending path decided by done()", kinds == {True, False}, "paths decided by done(): %s" % sorted(kinds), where_of(adc))
 
 
 
